@@ -71,6 +71,7 @@ Definition X_TOO_MANY : N := 24.      (* CloudTooManyRetriesError *)
 Definition X_PARENT_PRIO : N := 25.   (* parent conflict with a negative priority / trashed peer *)
 Definition X_DOWNLOAD_ERR : N := 26.  (* download(): not a file *)
 Definition X_REUSE : N := 27.         (* SyncState.update prior_oid handling *)
+Definition X_MOVED_OUT : N := 28.     (* SyncManager.sync: the other side moved out of the sync root -> SyncState.split *)
 
 (* ------------------------------------------------------------------ configuration *)
 Record config := mkCfg {
@@ -777,9 +778,20 @@ Definition sync_side (w : world) (e : eid) (side : bool) : result (world * list 
     | Requeue => ROk (w1, cs, Break false)
     end.
 
+(* SyncManager.moved_out_of_root(sync, side) *)
+Definition moved_out_of_root (c : config) (en : StateModel.entry) (sd : bool) : bool :=
+  let x := StateModel.gs en sd in
+  StateModel.tstr (StateModel.s_oid x) && StateModel.tstr (StateModel.s_path x) && StateModel.tstr (StateModel.s_spath x) &&
+  ex_is (StateModel.s_ex x) StateModel.ExExists &&
+  match translate c (negb sd) (StateModel.s_path x) with Some _ => false | None => true end.
+(* the guard at the top of SyncManager.sync: a side to sync whose peer is now outside the roots -> split *)
+Definition split_guard (c : config) (en : StateModel.entry) (sd : bool) : bool :=
+  StateModel.tstr (StateModel.s_oid (StateModel.gs en sd)) && needs_sync c sd (StateModel.gs en sd) && moved_out_of_root c en (negb sd).
+
 Definition sync_entry (w : world) (e : eid) : result (world * list call) :=
   en <- get_e w e ;;
-  if hash_conflict en then OutOfFragment X_HASH_CONFLICT
+  if split_guard (w_cfg w) en false || split_guard (w_cfg w) en true then OutOfFragment X_MOVED_OUT
+  else if hash_conflict en then OutOfFragment X_HASH_CONFLICT
   else
     (* sorted((LOCAL, REMOTE), key=changed or 0): stable *)
     let first := N.ltb (chgval (StateModel.s_chg (StateModel.e_r en))) (chgval (StateModel.s_chg (StateModel.e_l en))) in
